@@ -279,8 +279,13 @@ type swExec struct {
 	up             map[int]*swUp
 	origin         map[int]int // 0 FromAppend 1 FromFlush for the thread's current PUp/PCb
 	cbEmpty        map[int]bool
-	overtaken      map[int]bool
+	overtaken      map[int]bool // a larger offset was published while t's callback was pending
+	overtakenNE    map[int]bool // ... by the callback of a NON-empty flush
+	cbStale        map[int]bool // the callback's offset differed from the last committed offset when it was created
 	cbWasOvertaken bool
+	cbWasOvNE      bool
+	cbWasStale     bool
+	cbWasEmpty     bool
 	accepted       []*swAccepted
 	cur            [swNT]*swAccepted
 	expNext        int64
@@ -492,6 +497,27 @@ func (x *swExec) pendingBases() (fl []int64, buf []int64) {
 	return
 }
 
+// cbBorn is called when thread t's onFlush callback has just become pending: the offset it
+// carries must be the last committed offset at that moment (a commit publishes its own
+// segment's last offset, an empty Flush the last committed one).
+func (x *swExec) cbBorn(t int, empty bool) {
+	st := x.stat(t)
+	if st.kind != 3 {
+		return
+	}
+	x.cbEmpty[t] = empty
+	delete(x.overtaken, t)
+	delete(x.overtakenNE, t)
+	l := x.e.log
+	l.mu.Lock()
+	clast, has := int64(-1), false
+	if n := len(l.segments); n > 0 {
+		clast, has = l.segments[n-1].lastOffset, true
+	}
+	l.mu.Unlock()
+	x.cbStale[t] = !has || clast != st.v
+}
+
 // do executes one plan action (if enabled) and returns the Coq events that happened.
 func (x *swExec) do(a swAct) ([]string, bool) {
 	if !x.enabled(a) {
@@ -522,7 +548,7 @@ func (x *swExec) do(a swAct) ([]string, bool) {
 			noteGates(t, 1)
 		case 3:
 			x.origin[t] = 1
-			x.cbEmpty[t] = true
+			x.cbBorn(t, true)
 			x.tags["empty-flush-publish"] = true
 		}
 	}
@@ -548,7 +574,7 @@ func (x *swExec) do(a swAct) ([]string, bool) {
 				l := x.e.log
 				l.mu.Lock()
 				lb := l.flushingBatches[len(l.flushingBatches)-1]
-				base, last = lb.BaseOffset, lb.BaseOffset+int64(lb.LastOffsetDelta)
+				base, last = lb.BaseOffset, l.nextOffset-1 // what AppendResult.LastOffset will be
 				l.mu.Unlock()
 			}
 			noteGates(a.T, 0)
@@ -594,7 +620,10 @@ func (x *swExec) do(a swAct) ([]string, bool) {
 			delete(x.up, a.T)
 			if u.sg == 1 && u.ix == 1 {
 				evs = append(evs, fmt.Sprintf("ECommit %d", a.T))
-				x.cbEmpty[a.T] = false
+				x.cbBorn(a.T, false)
+				if len(parkedBefore) > 0 {
+					x.tags["commit-with-waiter"] = true
+				}
 			} else {
 				evs = append(evs, fmt.Sprintf("EFailReset %d", a.T))
 				// batches that were in flight and are now neither buffered nor in flight
@@ -635,12 +664,17 @@ func (x *swExec) do(a swAct) ([]string, bool) {
 			if t != a.T && x.stat(t).kind == 3 {
 				x.tags["callbacks-overlap"] = true
 				if a.Ok && st.v > x.stat(t).v {
-					x.overtaken[t] = true // a later flush's callback lands before t's
+					x.overtaken[t] = true // a larger offset is published while t's callback is pending
+					if !x.cbEmpty[a.T] {
+						x.overtakenNE[t] = true
+					}
 				}
 			}
 		}
-		x.cbWasOvertaken = x.overtaken[a.T]
+		x.cbWasOvertaken, x.cbWasOvNE, x.cbWasStale, x.cbWasEmpty = x.overtaken[a.T], x.overtakenNE[a.T], x.cbStale[a.T], x.cbEmpty[a.T]
 		delete(x.overtaken, a.T)
+		delete(x.overtakenNE, a.T)
+		delete(x.cbStale, a.T)
 		x.release("cb", a.T, a.Ok)
 		synctest.Wait()
 		if !a.Ok {
@@ -670,6 +704,8 @@ func (x *swExec) do(a swAct) ([]string, bool) {
 		x.up = map[int]*swUp{}
 		x.cur = [swNT]*swAccepted{}
 		x.overtaken = map[int]bool{}
+		x.overtakenNE = map[int]bool{}
+		x.cbStale = map[int]bool{}
 		x.cbEmpty = map[int]bool{}
 		evs = append(evs, "ECrash")
 		x.tags["crash"] = true
@@ -911,8 +947,18 @@ func (x *swExec) oracleAppend(acc *swAccepted) {
 			}
 			x.setFail(key, fmt.Sprintf("append #%d got base %d, previous batch ended at %d", acc.seq, acc.base, x.expNext-1))
 		}
-		if acc.last < acc.base {
+		if acc.lod < 0 {
 			x.setFail("negative-last-offset-delta", fmt.Sprintf("append #%d accepted with base %d last %d (lastOffsetDelta %d): next offset does not advance", acc.seq, acc.base, acc.last, acc.lod))
+		} else if acc.last != acc.base+int64(acc.lod) || acc.last < acc.base {
+			x.setFail("offset-advance-overflow", fmt.Sprintf("append #%d: base %d, header lastOffsetDelta %d, but the broker reports last offset %d (expected %d)", acc.seq, acc.base, acc.lod, acc.last, acc.base+int64(acc.lod)))
+		}
+		if x.live && acc.lod >= 0 {
+			x.e.log.mu.Lock()
+			next := x.e.log.nextOffset
+			x.e.log.mu.Unlock()
+			if next != acc.base+int64(acc.lod)+1 {
+				x.setFail("offset-advance-overflow", fmt.Sprintf("append #%d: base %d, header lastOffsetDelta %d, but nextOffset became %d (expected %d): later batches get offsets at or below acknowledged ones", acc.seq, acc.base, acc.lod, next, acc.base+int64(acc.lod)+1))
+			}
 		}
 		// consumer-visible extents inside the stored record set
 		vis := swVisible(acc.stored)
@@ -1064,15 +1110,30 @@ func (x *swExec) oracleStep(a swAct, prevStore int64) {
 	}
 	if x.want("C05") {
 		if store < prevStore {
+			// structural cause of the regression (a known finding must not hide another one):
+			//  hw-callback-reorder            two NON-empty flushes committed in one order and their
+			//                                 callbacks reached the store in the opposite order
+			//  hw-empty-flush-publish-reorder the same race with an empty Flush's re-publish of the
+			//                                 (then current) committed offset on either side
+			//  hw-stale-publish               the callback carried an offset that was already behind
+			//                                 the last committed one when it was created
+			//  hw-regressed                   anything else
 			key := "hw-regressed"
-			if a.K == "cb" && x.cbWasOvertaken {
-				key = "hw-callback-reorder"
+			if a.K == "cb" {
+				switch {
+				case x.cbWasStale:
+					key = "hw-stale-publish"
+				case x.cbWasOvertaken && !x.cbWasEmpty && x.cbWasOvNE:
+					key = "hw-callback-reorder"
+				case x.cbWasOvertaken:
+					key = "hw-empty-flush-publish-reorder"
+				}
 			}
 			x.setFail(key, fmt.Sprintf("published next_offset went from %d to %d (action %s t=%d)", prevStore, store, a.K, a.T))
 		}
 		if end := x.s3End(); store > end {
 			key := "hw-ahead-of-s3"
-			if a.K == "cb" && x.cbEmpty[a.T] {
+			if a.K == "cb" && x.cbWasEmpty {
 				key = "hw-empty-flush-ahead-of-s3"
 			}
 			x.setFail(key, fmt.Sprintf("published next_offset %d but S3 segments with an index end at offset %d (action %s t=%d)", store, end-1, a.K, a.T))
@@ -1093,7 +1154,7 @@ type swResult struct {
 func swRun(t *testing.T, cs swCase, prop string) swResult {
 	var res swResult
 	synctest.Test(t, func(t *testing.T) {
-		x := &swExec{cs: cs, prop: prop, w: &swWorld{objs: map[string][]byte{}}, up: map[int]*swUp{}, origin: map[int]int{}, cbEmpty: map[int]bool{}, overtaken: map[int]bool{}, tags: map[string]bool{}}
+		x := &swExec{cs: cs, prop: prop, w: &swWorld{objs: map[string][]byte{}}, up: map[int]*swUp{}, origin: map[int]int{}, cbEmpty: map[int]bool{}, overtaken: map[int]bool{}, overtakenNE: map[int]bool{}, cbStale: map[int]bool{}, tags: map[string]bool{}}
 		x.e = x.newEpoch()
 		if ok, _ := x.openLog(x.e, true); !ok {
 			t.Fatalf("initial open failed")
@@ -1141,7 +1202,23 @@ func swGenRaw(r *vRand, malformedPct int, marker byte) ([]byte, string) {
 	if !r.Chance(malformedPct) {
 		return swBatch(cnt-1, cnt, int64(r.Range(0, 3)), extra, marker), "valid"
 	}
-	switch r.Intn(8) {
+	switch r.Intn(11) {
+	case 8, 9:
+		// extreme header values: the offset arithmetic must be done in int64
+		lods := []int32{2147483647, 2147483646, 1 << 30, 1 << 16, 65535, 1<<31 - 1 - 61}
+		d := swBatch(lods[r.Intn(len(lods))], cnt, 0, extra, marker)
+		if r.Bool() { // huge / negative record counts
+			cnts := []int32{2147483647, -2147483648, 1 << 30, -1, 1 << 24}
+			binary.BigEndian.PutUint32(d[57:61], uint32(cnts[r.Intn(len(cnts))]))
+		}
+		return swExtremeFields(r, d), "extreme-lod"
+	case 10:
+		d := swBatch(cnt-1, cnt, 0, extra, marker)
+		if r.Bool() {
+			cnts := []int32{2147483647, -2147483648, 1 << 30, 1<<31 - 2}
+			binary.BigEndian.PutUint32(d[57:61], uint32(cnts[r.Intn(len(cnts))]))
+		}
+		return swExtremeFields(r, d), "extreme-fields"
 	case 0:
 		neg := []int32{-1, -2, -5, -2147483648}
 		return swBatch(neg[r.Intn(len(neg))], cnt, 0, extra, marker), "neg-lod"
@@ -1174,6 +1251,30 @@ func swGenRaw(r *vRand, malformedPct int, marker byte) ([]byte, string) {
 		}
 		return d, "min-size"
 	}
+}
+
+// swExtremeFields overwrites header fields the broker does not interpret with extreme
+// values: client base offset, partition leader epoch, CRC, attributes, first/max
+// timestamp, producer id/epoch, base sequence.
+func swExtremeFields(r *vRand, d []byte) []byte {
+	ext := [][]byte{{0x7f, 0xff, 0xff, 0xff, 0xff, 0xff, 0xff, 0xff}, {0x80, 0, 0, 0, 0, 0, 0, 0}, {0xff, 0xff, 0xff, 0xff, 0xff, 0xff, 0xff, 0xff}, {0, 0, 0, 0, 0, 0, 0, 0}}
+	put := func(off, n int) {
+		if r.Chance(60) {
+			copy(d[off:off+n], ext[r.Intn(len(ext))][:n])
+		} else {
+			copy(d[off:off+n], r.Bytes(n))
+		}
+	}
+	put(0, 8)  // baseOffset as sent by the client
+	put(12, 4) // partitionLeaderEpoch
+	put(17, 4) // crc
+	put(21, 2) // attributes
+	put(27, 8) // firstTimestamp
+	put(35, 8) // maxTimestamp
+	put(43, 8) // producerId
+	put(51, 2) // producerEpoch
+	put(53, 4) // baseSequence
+	return d
 }
 
 type swGenCfg struct {
@@ -1295,6 +1396,43 @@ func swGenDriven(r *vRand, prop string, maxActs int) swCase {
 		st = append(st, swAct{K: "cb", T: t, Ok: !r.Chance(g.fault / 2)}, swAct{K: "respond", T: t})
 		return st
 	}
+	// regularly start with "a Flush parks behind the flush that drained its batch and proceeds
+	// after the commit", with the two callbacks and a third producer's flush in random order
+	if nthreads >= 2 && r.Chance(35) {
+		okOr := func() bool { return !r.Chance(g.fault) }
+		pre := []swAct{}
+		if r.Bool() {
+			pre = append(pre, swAct{K: "produce", T: 2, Raw: swBatch(0, 1, 0, 2, 0xA0)}, swAct{K: "flush", T: 2}, swAct{K: "seg", T: 2, Ok: true}, swAct{K: "idx", T: 2, Ok: true}, swAct{K: "cb", T: 2, Ok: okOr()}, swAct{K: "respond", T: 2})
+		}
+		pre = append(pre, swAct{K: "produce", T: 1, Raw: swBatch(0, 1, 0, 3, 0xA1)}, swAct{K: "produce", T: 0, Raw: swBatch(1, 2, 0, 3, 0xA2)},
+			swAct{K: "flush", T: 0}, swAct{K: "flush", T: 1}, swAct{K: "seg", T: 0, Ok: okOr()}, swAct{K: "idx", T: 0, Ok: okOr()})
+		tail := []swAct{{K: "cb", T: 0, Ok: true}, {K: "cb", T: 1, Ok: true}}
+		if nthreads >= 3 {
+			tail = append(tail, swAct{K: "produce", T: 2, Raw: swBatch(0, 1, 0, 2, 0xA3)}, swAct{K: "flush", T: 2}, swAct{K: "seg", T: 2, Ok: true}, swAct{K: "idx", T: 2, Ok: true}, swAct{K: "cb", T: 2, Ok: true})
+		}
+		// random interleaving that keeps the relative order of thread 2's steps
+		var t2, rest []swAct
+		for _, a := range tail {
+			if a.T == 2 {
+				t2 = append(t2, a)
+			} else {
+				rest = append(rest, a)
+			}
+		}
+		if r.Bool() && len(rest) == 2 {
+			rest[0], rest[1] = rest[1], rest[0]
+		}
+		for len(t2) > 0 || len(rest) > 0 {
+			if len(rest) == 0 || (len(t2) > 0 && r.Bool()) {
+				pre, t2 = append(pre, t2[0]), t2[1:]
+			} else {
+				pre, rest = append(pre, rest[0]), rest[1:]
+			}
+		}
+		// seg/idx of thread 1 in case thread 0's flush failed and thread 1 re-flushes
+		pre = append(pre, swAct{K: "seg", T: 1, Ok: true}, swAct{K: "idx", T: 1, Ok: true}, swAct{K: "cb", T: 1, Ok: true})
+		cs.Plan = append(cs.Plan, pre...)
+	}
 	progs := make([][]swAct, nthreads)
 	for len(cs.Plan) < n {
 		if r.Chance(g.crash) {
@@ -1369,13 +1507,50 @@ func swCorpus() []swCase {
 	}
 }
 
+// corpus added after the seeded-mutation review: extreme header values and the schedules in
+// which a Flush parked behind another producer's upload proceeds with nothing to drain.
+func swCorpus2() []swCase {
+	b := func(m byte) []byte { return swBatch(0, 1, 0, 4, m) }
+	big := func(l int32, m byte) []byte { return swBatch(l, 1, 0, 4, m) }
+	P := func(t int, raw []byte) swAct { return swAct{K: "produce", T: t, Raw: raw} }
+	F := func(t int) swAct { return swAct{K: "flush", T: t} }
+	S := func(t int, ok bool) swAct { return swAct{K: "seg", T: t, Ok: ok} }
+	I := func(t int, ok bool) swAct { return swAct{K: "idx", T: t, Ok: ok} }
+	C := func(t int, ok bool) swAct { return swAct{K: "cb", T: t, Ok: ok} }
+	R := func(t int) swAct { return swAct{K: "respond", T: t} }
+	full := func(t int, raw []byte) []swAct {
+		return []swAct{P(t, raw), F(t), S(t, true), I(t, true), C(t, true), R(t)}
+	}
+	cat := func(xs ...[]swAct) []swAct {
+		var out []swAct
+		for _, x := range xs {
+			out = append(out, x...)
+		}
+		return out
+	}
+	return []swCase{
+		// C02: lastOffsetDelta = MaxInt32, MaxInt32-1, 2^30: the +1 must happen in int64
+		{Interval: 1, Plan: cat(full(0, big(2147483647, 1)), full(1, b(2)), full(0, big(2147483646, 3)), full(2, big(1<<30, 4)), full(1, b(5)),
+			[]swAct{{K: "crash"}, {K: "restart", Ok: true}}, full(0, b(6)))},
+		{Interval: 1, MaxBatches: 2, Plan: cat([]swAct{P(0, big(2147483647, 1)), P(1, big(65535, 2)), S(1, true), I(1, true), C(1, true), F(1), C(1, true), R(1), F(0), C(0, true), R(0)}, full(2, b(3)))},
+		// C05: one committed segment; B appends; A appends and its flush drains both; B parks in
+		// Flush during A's upload; A commits; B wakes with nothing to drain and re-publishes
+		// the committed offset; callbacks A then B (no regression allowed), then the reverse
+		{Interval: 1, Plan: cat(full(2, b(1)), []swAct{P(1, b(2)), P(0, b(3)), F(0), F(1), S(0, true), I(0, true), C(0, true), C(1, true), R(0), R(1)})},
+		{Interval: 1, Plan: cat(full(2, b(1)), []swAct{P(1, b(2)), P(0, b(3)), F(0), F(1), I(0, true), S(0, true), C(1, true), C(0, true), R(1), R(0)})},
+		// C05 known finding hw-empty-flush-publish-reorder: B's empty Flush snapshots the committed
+		// offset 1; C's flush commits offset 2 and publishes 3; then B's put lands: 3 -> 2
+		{Interval: 1, Plan: []swAct{P(0, b(1)), P(1, b(2)), F(0), S(0, true), I(0, true), C(0, true), R(0), F(1), P(2, b(3)), F(2), S(2, true), I(2, true), C(2, true), C(1, true), R(1), R(2)}},
+	}
+}
+
 // ---------------------------------------------------------------- test entry
 func TestVerifStorage(t *testing.T) {
 	prop := os.Getenv("VERIF_STORAGE_PROP")
 	if prop == "" {
 		prop = "C01"
 	}
-	rule := "schedules of 1-3 producers over the real PartitionLog under testing/synctest: produce/flush calls, S3 segment+index upload outcomes in either order, onFlush/UpdateOffsets outcomes in any order, responses, crashes at any quiescent point, restarts with transient restore faults; batches valid or malformed (negative lastOffsetDelta, count mismatch, batchLength 0/overrun, 2-3 concatenated batches, short); non-trivial = a flush overlaps another producer's append/flush, or an S3/store fault, or a crash+restart; distinct = distinct (config, executed plan)"
+	rule := "schedules of 1-3 producers over the real PartitionLog under testing/synctest: produce/flush calls, S3 segment+index upload outcomes in either order, onFlush/UpdateOffsets outcomes in any order, responses, crashes at any quiescent point, restarts with transient restore faults; batches valid or malformed (negative lastOffsetDelta, lastOffsetDelta up to MaxInt32, huge/negative record counts, extreme client base offset / timestamps / producer fields, count mismatch, batchLength 0/overrun, 2-3 concatenated batches, short); non-trivial = a flush overlaps another producer's append/flush, or an S3/store fault, or a crash+restart; distinct = distinct (config, executed plan)"
 	rep := vNewReport(prop, rule)
 	var coq, jsons []string
 	runOne := func(cs swCase, label string) {
@@ -1422,11 +1597,11 @@ func TestVerifStorage(t *testing.T) {
 		}
 		runOne(cs, "replay")
 	} else {
-		for _, cs := range swCorpus() {
+		for _, cs := range append(swCorpus(), swCorpus2()...) {
 			runOne(cs, "corpus")
 		}
 		r := vNewRand(vSeed()*1000003 + uint64(len(prop))*7 + uint64(prop[2]))
-		n := vN(220, 3000)
+		n := vN(360, 3000)
 		maxActs := 34
 		if vTier() == "thorough" {
 			maxActs = 60
